@@ -15,6 +15,7 @@ import (
 	"os"
 	"os/exec"
 	"path/filepath"
+	"regexp"
 	"runtime"
 	"sort"
 	"strconv"
@@ -33,7 +34,8 @@ var verifRoot = func() string {
 type KnownFinding struct {
 	ID          string            `json:"id"`
 	Property    string            `json:"property"`
-	Rule        string            `json:"rule"`
+	Rule        string            `json:"rule"`       // exact rule name, or
+	RuleRegex   string            `json:"rule_regex,omitempty"` // a regular expression on the rule name
 	Attrs       map[string]string `json:"attrs,omitempty"`
 	Status      string            `json:"status"` // known | fixed
 	Commit      string            `json:"commit,omitempty"`
@@ -58,7 +60,14 @@ func loadKnown() []KnownFinding {
 func matchKnown(kf []KnownFinding, v *Violation) *KnownFinding {
 	for i := range kf {
 		k := &kf[i]
-		if k.Status != "known" || k.Property != v.Property || k.Rule != v.Rule {
+		if k.Status != "known" || k.Property != v.Property {
+			continue
+		}
+		if k.RuleRegex != "" {
+			if ok, _ := regexp.MatchString("^(?:"+k.RuleRegex+")$", v.Rule); !ok {
+				continue
+			}
+		} else if k.Rule != v.Rule {
 			continue
 		}
 		ok := true
@@ -241,6 +250,7 @@ func cmdWorker(args []string) {
 			continue
 		}
 		emit(&WorkerOut{Kind: "violation", Run: run, Viol: min.Expect, Replay: path})
+		break // one violation ends this worker's chunk; the parent stops the batch
 	}
 	for k := range states {
 		sum.States = append(sum.States, k)
@@ -413,7 +423,14 @@ func cmdCheck(args []string) {
 	// confirm violations in a fresh process: the replay file must reproduce exactly
 	exit := 0
 	var confirmed []WorkerOut
+	sort.Slice(a.viols, func(i, j int) bool { return a.viols[i].Run < a.viols[j].Run })
+	seenSig := map[string]bool{}
 	for _, v := range a.viols {
+		if seenSig[v.Viol.Sig()] || len(seenSig) >= 3 {
+			os.Remove(v.Replay)
+			continue
+		}
+		seenSig[v.Viol.Sig()] = true
 		cmd := exec.Command(self, "replay", v.Replay)
 		outb, _ := cmd.CombinedOutput()
 		if cmd.ProcessState != nil && cmd.ProcessState.ExitCode() == 1 && strings.Contains(string(outb), "sig="+v.Viol.Sig()) {
